@@ -511,7 +511,11 @@ impl Node {
 
     pub fn make_reference(&self) -> ExternalReference {
         let id0 = self.reference_counter.fetch_add(1, Ordering::SeqCst);
+        #[cfg(edp_rs_verif)]
+        edp_client::verif::sync_point("make_reference::id0");
         let id1 = self.reference_counter.fetch_add(1, Ordering::SeqCst);
+        #[cfg(edp_rs_verif)]
+        edp_client::verif::sync_point("make_reference::id1");
         let id2 = self.reference_counter.fetch_add(1, Ordering::SeqCst);
         ExternalReference::new(
             self.name.clone(),
@@ -680,5 +684,19 @@ impl Node {
             .map_err(|_| Error::RpcCancelled)?;
 
         Ok(response)
+    }
+}
+
+/// Read-only / set-up accessors for the verification harness (`--cfg edp_rs_verif` only).
+#[cfg(edp_rs_verif)]
+impl Node {
+    /// Number of outstanding remote calls still registered.
+    pub fn verif_pending_rpc_count(&self) -> usize {
+        self.pending_rpcs.len()
+    }
+
+    /// Positions the counter that feeds `make_reference` and unlink ids.
+    pub fn verif_set_reference_counter(&self, value: u32) {
+        self.reference_counter.store(value, Ordering::SeqCst);
     }
 }
